@@ -860,7 +860,7 @@ def run(ctx):
         f_serial = [pool.submit(serial_job, (os.path.join(root, "serial%d" % s), codec, s)) for s in serial_seeds]
         f_lossless = [pool.submit(serial_job, (os.path.join(root, "lossless%d" % s), codec + "-lossless", s)) for s in (0, gen_seed)]
         # both configurations in ONE serial run (one process generates for one configuration after the other)
-        f_joint = pool.submit(serial_job, (os.path.join(root, "joint"), "%s|%s-lossless" % (codec, codec), 0))
+        f_joint = pool.submit(serial_job, (os.path.join(root, "joint"), "(%s|%s-lossless)" % (codec, codec), 0))
         f_ex = [pool.submit(extract_worker, (i, codes[i], exroot, 0)) for i in sorted(allw, key=lambda i: i in light)]
         f_runs = [pool.submit(run_schedule, s) for s in specs]
         serials = [f.result() for f in f_serial]
@@ -917,9 +917,9 @@ def run(ctx):
     union = dict(lossless[0]["tree"])
     union.update(ref)
     tid[0] += 1
-    jrun = {"events": [{"tid": tid[0], "ev": "begin", "kind": "serial:joint", "n": 1, "par": 1}, {"tid": tid[0], "ev": "start", "w": 1}, {"tid": tid[0], "ev": "end", "w": 1, "rc": joint["rc"]}], "tree": joint["tree"], "errs": {1: joint["err"]}, "spec": {"tid": tid[0], "kind": "serial:joint", "members": [0], "par": 1, "seeds": [0], "serial_seed": 0, "codec": "%s|%s-lossless" % (codec, codec)}}
+    jrun = {"events": [{"tid": tid[0], "ev": "begin", "kind": "serial:joint", "n": 1, "par": 1}, {"tid": tid[0], "ev": "start", "w": 1}, {"tid": tid[0], "ev": "end", "w": 1, "rc": joint["rc"]}], "tree": joint["tree"], "errs": {1: joint["err"]}, "spec": {"tid": tid[0], "kind": "serial:joint", "members": [0], "par": 1, "seeds": [0], "serial_seed": 0, "codec": "(%s|%s-lossless)" % (codec, codec)}}
     jrecords, jalarms, jdis, jby = judge_runs(ctx, [jrun], union, lambda r: None, "trace validation of the serial run over both configurations against the union of the single-configuration runs (TestCaseGenTrace)")
-    report_alarms(ctx, jalarms, jrecords, jby, "%s|%s-lossless" % (codec, codec), gen_seed, names)
+    report_alarms(ctx, jalarms, jrecords, jby, "(%s|%s-lossless)" % (codec, codec), gen_seed, names)
     dis = dis + jdis
 
     # --- the interleaving model on the extracted operation lists
@@ -1112,7 +1112,7 @@ def replay(case):
         return {"violations": ["re-run the check"]}
     codec = case["codec"]
     root = tlc.mkscratch("c24replay")
-    write_custom_qm_csv(root, codec.replace("-lossless", ""))  # the scratch CSV the check itself generates from
+    write_custom_qm_csv(root, codec.strip("()").split("|")[0].replace("-lossless", ""))  # the scratch CSV the check itself generates from
     for sub in ("gen", "serial", "ex"):
         os.makedirs(os.path.join(root, sub))
     codes = gen_commands(codec, os.path.join(root, "gen"), case["gen_seed"])
@@ -1120,7 +1120,7 @@ def replay(case):
     ref = sr["tree"]
     members = case["members"]
     if case["kind"] == "serial:joint":
-        a, b = codec.split("|")
+        a, b = codec.strip("()").split("|")
         ref = dict(serial_job((os.path.join(root, "serial", "b"), b, 0))["tree"])
         ref.update(serial_job((os.path.join(root, "serial", "a"), a, 0))["tree"])
         s2 = serial_job((os.path.join(root, "serial", "t"), codec, 0))
